@@ -426,8 +426,8 @@ _BYTE_REWRITES = ("strip", "lstrip", "rstrip", "replace", "lower", "upper", "tra
 
 def c20_8(ctx):
     """MEMO: rendered parts / decoded payloads are not remembered under a key that leaves out the payload they were made from"""
-    from sa.memo import memo_obligation
-    return memo_obligation(ctx, ["bcur", "bech32"], "a second payload encoded with the same chunk size returns the first payload's parts")
+    from sa.memo import cache_obligation
+    return cache_obligation(ctx, ["bcur", "bech32"], "a second payload encoded with the same chunk size returns the first payload's parts")
 
 
 def c20_9(ctx):
@@ -541,7 +541,23 @@ def c20_7(ctx):
     return out
 
 
+def c20_11(ctx):
+    """SET-ORDER: no ordered result (list, serialisation, yielded sequence) of the modules this property is anchored in takes its
+    order from the iteration order of a set"""
+    from sa.setorder import setorder_obligation
+    return setorder_obligation(ctx, ["bcur", "bech32"], "the same inputs give different output from run to run")
+
+
+def c20_12(ctx):
+    """SHARED necessary conditions over the modules this property is anchored in: FALSY-DEFAULT, MUTABLE-DEFAULT, IDENTITY, ALIAS,
+    CTOR-FORWARD (sa/shared.py)"""
+    from sa.shared import shared_obligations
+    return shared_obligations(ctx, ["bcur", "bech32"], "the result would depend on something other than the arguments and the object's current state")
+
+
 OBLIGATIONS = [
+    ("C20.12", "SHARED", c20_12),
+    ("C20.11", "SET-ORDER", c20_11),
     ("C20.1", "RANGE partition+agreement", c20_1),
     ("C20.2", "SIBLING", c20_2),
     ("C20.3", "GUARD", c20_3),
